@@ -9,17 +9,19 @@ from ..common import d42  # noqa: F401
 from th import PathHolder
 from d42.validation import Formatter
 
-MODULE = "D42.Props.C03Sub"
+MODULE = "D42.Props.C03All"
 THEOREMS = ["errors_located", "errors_true", "siblings_disjoint_list", "siblings_disjoint_dict", "shownPath_extends",
             "validateP_located", "validateAllP_located", "validateElemsP_located", "windowsP_located",
             "validateFieldsP_located", "validateScalar_here", "validateScalar_true", "validateP_true", "minByLen_mem",
-            "errors_true_sub", "sub_accepts_of_plain", "errors_true_sub_example"]
+            "errors_true_sub", "sub_accepts_of_plain", "errors_true_sub_example",
+            "format_shown", "format_names_path"]
 FILES = ["D42/Model/Data.lean", "D42/Model/Float.lean", "D42/Model/Validate.lean", "D42/Spec/Conforms.lean",
-         "D42/Props/C02.lean", "D42/Props/C03.lean", "D42/Props/C03Facts.lean", "D42/Props/C03Sub.lean"]
+         "D42/Props/C02.lean", "D42/Props/C03.lean", "D42/Props/C03Facts.lean", "D42/Props/C03Sub.lean", "D42/Model/Format.lean", "D42/Props/C08.lean",
+         "D42/Props/C08Format.lean", "D42/Props/C03All.lean"]
 
 EVIDENCE = dict(
     level="proof",
-    checker_cmd="lake build D42.Props.C03Sub d42model && lake env lean <#print axioms audit>",
+    checker_cmd="lake build D42.Props.C03All d42model && lake env lean <#print axioms audit>",
     trusted=["Lean 4.33.0 kernel; axioms ⊆ {propext, Classical.choice, Quot.sound}",
              "model paths are immutable lists (copy-on-descend by construction); the tie to the code's PathHolder "
              "discipline is the comparison of the full error multiset (kind, path, actual, parameter) on this run's cases",
